@@ -97,6 +97,12 @@ impl PayloadBuffer {
 
             match Pin::new(&mut self.stream).poll_next(cx) {
                 Poll::Ready(Some(Ok(data))) => {
+                    if data.is_empty() {
+                        // nothing to buffer; poll again so that the stream either yields data
+                        // or registers the waker before this method returns
+                        continue;
+                    }
+
                     self.pending = Some(data);
                     appended |= self.append_pending()?;
 
@@ -116,9 +122,9 @@ impl PayloadBuffer {
             }
         }
 
-        if appended {
-            cx.waker().wake_by_ref();
-        }
+        // The stream was ready on every iteration and may still be; its waker is not registered,
+        // so schedule another poll regardless of whether anything was appended.
+        cx.waker().wake_by_ref();
 
         Ok(())
     }
